@@ -532,8 +532,8 @@ macro_rules! assert_vfs_readlink_abs {
         }
         match $vfs.readlink_abs(&link) {
             Ok(x) => {
-                if !target.has_suffix(&x) {
-                    panic_msg!("assert_vfs_readlink_abs!", "link target doesn't equal given path", &x);
+                if x != target {
+                    panic_msg!("assert_vfs_readlink_abs!", format!("link target {:?} doesn't equal given path", &x), &link);
                 }
             },
             _ => panic_msg!("assert_vfs_readlink_abs!", "failed while reading link", &link),
